@@ -99,11 +99,12 @@ def mk (k : Kw) : Py.R RD := do
   let wd ← match k.weekday with
     | none => pure none
     | some a => (weekdayOfArg a).map some
-  -- lines 208-214
+  -- lines 208-214 (`if 59 < yearday < 366`: day 366 is the last day of the year and takes no leap-day
+  -- correction — month=12, day=32 clips to Dec 31; repaired D-C03-yearday366)
   let nl := orInt k.nlyearday 0
   let yd := orInt k.yearday 0
   let yday := if nl ≠ 0 then nl else yd
-  let leapdays := if nl = 0 ∧ yd ≠ 0 ∧ yd > 59 then -1 else k.leapdays
+  let leapdays := if nl = 0 ∧ yd ≠ 0 ∧ 59 < yd ∧ yd < 366 then -1 else k.leapdays
   let (month, day) ← if yday ≠ 0 then
       (ydayLookup yday ydayidx 0 0).map (fun md => (some md.1, some md.2))
     else pure (k.month, k.day)
